@@ -352,3 +352,191 @@ Proof. vm_compute. repeat split; reflexivity. Qed.
 Example C09_region_too_small_is_visible :
   omap (ctl_closed_b w_cfg_if) (exported_sinks w_cfg_if (t_edges (run_taint_analysis w_cfg_if [(0%N, ([], []))]))) = Ok false.
 Proof. vm_compute. reflexivity. Qed.
+
+(* ---------------------------------------------------------------------------
+   The branch regions and the closure under control dependence (fourth proof round).
+   Spec.CtlRegion: [region_covers g br] - every block control dependent on a block b with a non-constant branch,
+   other than b itself, is listed in the region the table br gives for b; [self_closed g B] - the pairs (b, b):
+   the names written in a branch block that is control dependent on itself (the phis of a loop header, which
+   cfg.rs leaves out of the header's own region) are in B when a name read by its condition is.
+   --------------------------------------------------------------------------- *)
+Require Import Spec.CtlRegion Proofs.CtlRegionProofs Proofs.BranchRegionProofs.
+
+(* ALL graphs with distinct block indices, ALL region tables: if the table covers control dependence then the set
+   of names the mirror (run with that table) finds tainted by an input/output signal is closed under control
+   dependence, up to the pairs (b, b).  Pure taint propagation: a taint step is recorded from every name read by
+   the condition of b to every name written in a block of the region of b. *)
+Theorem C09_regions_give_ctl_closed :
+  forall (g : cfg) (br : list (N * (list N * list N))) (es : list vname),
+    NoDup (map b_index (c_blocks g)) ->
+    region_covers g br ->
+    exported_sinks g (t_edges (run_taint_analysis g br)) = Ok es ->
+    self_closed g es ->
+    ctl_closed g es.
+Proof. exact regions_give_ctl_closed. Qed.
+Print Assumptions C09_regions_give_ctl_closed.
+
+(* the three conditions are decidable (the boolean forms are what the model driver `ctlregion` evaluates on every
+   dumped graph), and self_closed is a part of ctl_closed *)
+Theorem C09_region_hypotheses_decidable :
+  forall (g : cfg) (br : list (N * (list N * list N))) (B : list vname),
+    (indices_distinct_b g = true <-> NoDup (map b_index (c_blocks g))) /\
+    (region_covers_b g br = true <-> region_covers g br) /\
+    (self_closed_b g B = true <-> self_closed g B) /\
+    (ctl_closed g B -> self_closed g B).
+Proof.
+  intros g br B. split; [apply indices_distinct_b_spec|]. split; [apply region_covers_b_spec|].
+  split; [apply self_closed_b_spec | apply ctl_closed_self_closed].
+Qed.
+Print Assumptions C09_region_hypotheses_decidable.
+
+(* the fuel question: the tainted set exists for every relation (the closure loops stay within their fuel) *)
+Theorem C09_tainted_set_exists :
+  forall (g : cfg) (tm : list (vname * vname)), exists es, exported_sinks g tm = Ok es.
+Proof. exact exported_sinks_total. Qed.
+Print Assumptions C09_tainted_set_exists.
+
+(* CS0008 with implicit flows, from hypotheses about the regions: the closure of the tainted set is no longer
+   assumed but derived; what is evaluated per graph is the cover of the table and the pairs (b, b). *)
+Theorem C09_noninterference_with_region_cover :
+  forall (V : Type) (sem_num : Z -> V) (sem_infix : infix_op -> V -> V -> V) (sem_prefix : prefix_op -> V -> V)
+    (sem_switch : V -> V -> V -> V) (sem_call : ident -> list V -> V) (sem_array : list V -> V)
+    (sem_access : V -> list (access V) -> V) (sem_update : V -> list (access V) -> V -> V)
+    (sem_phi : list pcT -> list (vname * V) -> V) (sem_undef : V) (truthy : V -> bool)
+    (g : cfg) (br : list (N * (list N * list N))) (ment : stmt -> bool) (res : result) (f : finding)
+    (es : list vname),
+    indices_distinct_b g = true ->
+    region_covers_b g br = true ->
+    exported_sinks g (t_edges (run_taint_analysis g br)) = Ok es ->
+    self_closed_b g es = true ->
+    ment_sound_by g (idep g) ment ->
+    exported_targets_declared g = true ->
+    run_side_effect_analysis g br = Ok res ->
+    In f (r_findings res) ->
+    f_kind f = FVarNoSideEffect \/ f_kind f = FParamNoSideEffect ->
+    forall pr',
+      perturbed vname V pcT (f_var f)
+        (ssa_prog V sem_num sem_infix sem_prefix sem_switch sem_call sem_array sem_access sem_update sem_phi
+                  sem_undef truthy g ment) pr' ->
+    forall s s' : vname -> V, (forall y, y <> f_var f -> s y = s' y) ->
+    forall h pc n,
+      run vname V pcT vname_eq_dec
+        (ssa_prog V sem_num sem_infix sem_prefix sem_switch sem_call sem_array sem_access sem_update sem_phi
+                  sem_undef truthy g ment) n (h, pc, s)
+      = run vname V pcT vname_eq_dec pr' n (h, pc, s').
+Proof. exact noninterference_with_region_cover. Qed.
+Print Assumptions C09_noninterference_with_region_cover.
+
+(* The mirror of get_successors / get_interval / get_true_branch / get_false_branch (Model.BranchRegion):
+   its `while !update.is_subset(&result)` loops stay within the fuel of the model on EVERY block list ... *)
+Theorem C09_region_loops_terminate :
+  forall (bs : list block) (t : Dom.dom_tree) (x s e : N) (fi : option N),
+    (exists r, BranchRegion.get_successors bs x = Ok r) /\
+    (exists r, BranchRegion.get_interval bs s e = Ok r) /\
+    (exists r, BranchRegion.true_branch bs t x = Ok r) /\
+    (exists r, BranchRegion.false_branch bs t x fi = Ok r).
+Proof.
+  intros bs t x s e fi. split; [apply get_successors_total|]. split; [apply get_interval_total|].
+  split; [apply true_branch_total | apply false_branch_total].
+Qed.
+Print Assumptions C09_region_loops_terminate.
+
+(* ... and they return, with paths only: the blocks reachable from s that reach e along the predecessor lists,
+   e removed (get_interval); over the blocks of the dominance frontier of the start block, or everything
+   reachable when that frontier is empty (get_true_branch / get_false_branch from their start block on). *)
+Theorem C09_get_interval_exact :
+  forall (bs : list block) (s e : N) (r : list N),
+    BranchRegion.get_interval bs s e = Ok r ->
+    forall y, In y r <-> clos_refl_trans N (sedge bs) s y /\ clos_refl_trans N (pedge bs) e y /\ y <> e.
+Proof. exact get_interval_exact. Qed.
+Print Assumptions C09_get_interval_exact.
+
+Theorem C09_branch_from_exact :
+  forall (bs : list block) (t : Dom.dom_tree) (start : N) (r : list N),
+    BranchRegion.branch_from bs t start = Ok r ->
+    forall y, In y r <->
+      (BranchRegion.frontier_of t start = [] /\ clos_refl_trans N (sedge bs) start y) \/
+      (exists e, In e (BranchRegion.frontier_of t start) /\
+                 clos_refl_trans N (sedge bs) start y /\ clos_refl_trans N (pedge bs) e y /\ y <> e).
+Proof. exact branch_from_exact. Qed.
+Print Assumptions C09_branch_from_exact.
+
+(* the table of the mirror: for a block that ends in a branch, the union of the two sides *)
+Theorem C09_branches_of_entry :
+  forall (g : cfg) (br : list (N * (list N * list N))),
+    BranchRegion.branches_of g = Ok br ->
+    exists t, Dom.dominator_tree (Dom.dom_fuel (BranchRegion.dom_graph (c_blocks g))) Dom.id_order
+                                 (BranchRegion.dom_graph (c_blocks g)) = Ok t /\
+    forall b ti fi, In b (c_blocks g) -> BranchRegion.last_if b = Some (ti, fi) ->
+      exists tb fb, BranchRegion.true_branch (c_blocks g) t ti = Ok tb /\
+                    BranchRegion.false_branch (c_blocks g) t ti fi = Ok fb /\
+                    forall y, In y (branch_blocks br (b_index b)) <-> In y tb \/ In y fb.
+Proof. exact branches_of_entry. Qed.
+Print Assumptions C09_branches_of_entry.
+
+(* On an IR graph with the predecessor and successor lists of a skeleton graph that Model.Lift.lift returns
+   (Proofs.CtlChain.chain_keeps_skeleton_edges: the output of lifting -> SSA -> propagation is one), in which
+   every listed index is a block, the table exists - no panic site, no fuel exhausted - and the frontier lists
+   the mirror reads are the path-based dominance frontiers (C15). *)
+Require Model.Lift Model.DegGraph Spec.DomSpec Proofs.MirrorsDom Proofs.CtlRegionLifted.
+Theorem C09_lifted_branches_total :
+  forall (body : Lift.sk) (sg : list Lift.block) (g : cfg),
+    Lift.lift body = Ok sg ->
+    DegGraph.dom_graph_of g = MirrorsDom.to_dom sg ->
+    BranchRegion.graph_closed (c_blocks g) = true ->
+    exists br, BranchRegion.branches_of g = Ok br.
+Proof. exact CtlRegionLifted.lifted_branches_total. Qed.
+Print Assumptions C09_lifted_branches_total.
+
+Theorem C09_lifted_frontier_exact :
+  forall (body : Lift.sk) (sg : list Lift.block) (g : cfg) (t : Dom.dom_tree) (i j : N),
+    Lift.lift body = Ok sg ->
+    DegGraph.dom_graph_of g = MirrorsDom.to_dom sg ->
+    Dom.dominator_tree (Dom.dom_fuel (BranchRegion.dom_graph (c_blocks g))) Dom.id_order
+                       (BranchRegion.dom_graph (c_blocks g)) = Ok t ->
+    N.to_nat i < length sg ->
+    (In j (BranchRegion.frontier_of t i) <->
+     exists j', j = N.of_nat j' /\ DomSpec.df_spec (MirrorsDom.to_dom sg) (N.to_nat i) j').
+Proof. intros body sg g t i j Hl Hsame. exact (CtlRegionLifted.lifted_frontier_exact body sg g Hl Hsame t i j). Qed.
+Print Assumptions C09_lifted_frontier_exact.
+
+(* ---- the hypotheses are satisfiable; a region computed too small is visible in the cover itself ---- *)
+Example C09_region_cover_example :
+  indices_distinct_b w_cfg_if = true /\
+  region_covers_b w_cfg_if [(0%N, ([1%N], []))] = true /\
+  omap (self_closed_b w_cfg_if) (exported_sinks w_cfg_if (t_edges (run_taint_analysis w_cfg_if [(0%N, ([1%N], []))]))) = Ok true /\
+  region_covers_b w_cfg_if [(0%N, ([], []))] = false.
+Proof. vm_compute. repeat split; reflexivity. Qed.
+
+(* `var k = 0; while (k < in0) { k = k + 1; }` as the LAST statement of a template: block 1 is the loop header
+   (k.1 = phi(k.0, k.2), the condition has no false target: execution can end there), block 2 the body.
+   No block is without successor.  The header is control dependent on itself and is not in its own region {2};
+   its phi is tainted through k.2, written in the region: self_closed holds and is not vacuous. *)
+Definition w_k (n : N) : vname := {| vn_name := [107]%N; vn_suffix := None; vn_version := Some n |}.
+Definition w_cfg_loop : cfg :=
+  {| c_kind := KTemplate; c_params := [];
+     c_decls := [(w_in0, TSigIn); (w_k 0, TLocal); (w_k 1, TLocal); (w_k 2, TLocal)];
+     c_blocks := [ {| b_index := 0; b_depth := 0;
+                      b_stmts := [ SDecl (w_m 17 33) [w_in0] TSigIn [];
+                                   SSubst (w_m 37 46) (w_k 0) OpVar (ENum 0 know0) None (Some TLocal) ];
+                      b_preds := []; b_succs := [1%N] |};
+                   {| b_index := 1; b_depth := 0;
+                      b_stmts := [ SSubst (w_m 0 0) (w_k 1) OpVar (EPhi [w_k 0; w_k 2] know0) None (Some TLocal);
+                                   SIf (w_m 50 90) (EInfix ILt (EVar (w_k 1) know0) (EVar w_in0 know0) know0) 2 None ];
+                      b_preds := [0; 2]%N; b_succs := [2%N] |};
+                   {| b_index := 2; b_depth := 1;
+                      b_stmts := [ SSubst (w_m 70 80) (w_k 2) OpVar
+                                     (EInfix IAdd (EVar (w_k 1) know0) (ENum 1 know0) know0) None (Some TLocal) ];
+                      b_preds := [1%N]; b_succs := [1%N] |} ] |}.
+
+Example C09_trailing_loop_example :
+  Model.BranchRegion.branches_of w_cfg_loop = Ok [(1%N, ([2%N], []))] /\
+  is_exit_b w_cfg_loop 1 = true /\ is_exit_b w_cfg_loop 0 = false /\ is_exit_b w_cfg_loop 2 = false /\
+  ctl_dependent_b w_cfg_loop 1 1 = true /\ ctl_dependent_b w_cfg_loop 1 2 = true /\ ctl_dependent_b w_cfg_loop 0 0 = false /\
+  indices_distinct_b w_cfg_loop = true /\ all_reach_exit_b w_cfg_loop = true /\
+  region_covers_b w_cfg_loop [(1%N, ([2%N], []))] = true /\
+  omap (fun es => (vmem (w_k 1) es, self_closed_b w_cfg_loop es, ctl_closed_b w_cfg_loop es))
+       (exported_sinks w_cfg_loop (t_edges (run_taint_analysis w_cfg_loop [(1%N, ([2%N], []))]))) = Ok (true, true, true) /\
+  (* without the data edge k.2 -> k.1 the pair (1, 1) would fail: the empty set of tainted names plus in0, k.2 *)
+  self_closed_b w_cfg_loop [w_in0; w_k 2] = false.
+Proof. vm_compute. repeat split; reflexivity. Qed.
